@@ -689,6 +689,8 @@ def _is_array_source(it):
 
 
 def _iter_len(E, it):
+    if hasattr(it, "py_iter_len"):
+        return it.py_iter_len(E)
     if isinstance(it, I._Zip):
         ls = [_iter_len(E, p) for p in it.parts]
         r = ls[0]
